@@ -150,10 +150,15 @@ class DataProvider:
         if interval_min > interval_max:
             interval_min, interval_max = interval_max, interval_min
 
-        minimum = 0 if np.isinf(interval_min) else np.abs(axis - interval_min).argmin()
-        maximum = (
-            axis.size - 1 if np.isinf(interval_max) else np.abs(axis - interval_max).argmin() + 1
-        )
+        # an infinite bound reaches the end of the axis it points to
+        if np.isinf(interval_min):
+            minimum = 0 if interval_min < 0 else axis.size - 1
+        else:
+            minimum = np.abs(axis - interval_min).argmin()
+        if np.isinf(interval_max):
+            maximum = axis.size if interval_max > 0 else 1
+        else:
+            maximum = np.abs(axis - interval_max).argmin() + 1
 
         return slice(minimum, maximum)
 
